@@ -1112,6 +1112,22 @@ class Engine:
         lm = self.LOOP_CALLS.match(name)
         if lm and cur is not None and self.closure_text(callee) in self.closures:
             return self.loop_call(st, fr, lm.group(1), callee, argv, cur)
+        mc = re.match(r'^<(\{closure@[^}]*\}) as Fn(?:Mut|Once)?<.*>>::call(?:_mut|_once)?$', name)
+        if mc and mc.group(1) in self.closures:
+            # a closure bound to a local and called like a function: its body runs as a frame, the argument tuple is spread
+            tgt = self.closures[mc.group(1)]
+            self.body(tgt)
+            self.functions_entered.add(tgt)
+            clo = argv[0]
+            by_ref = bool(re.search(r'_1: &', self.items[tgt][0].sig))
+            if by_ref and not isinstance(clo, Ref):
+                clo = Ref(Cell(clo), [])
+            if not by_ref and isinstance(clo, Ref):
+                clo = self.deref(clo)
+            tup = self.deref(argv[1]) if len(argv) > 1 else None
+            spread = list(tup.fields) if isinstance(tup, Adt) else []
+            st.frames.append(Frame(self.items[tgt][0], tgt, [clo] + spread, destptr))
+            return PUSHED
         fi = self.from_call(name)
         if fi is not None:
             n_, b_ = fi
